@@ -833,6 +833,97 @@ class Gen:
         return "ddl", self.ddl(d)
 
 
+def directed_constructs():
+    """always-run, seed-independent block: DDL constraints / indexes whose members are real Columns, column names
+    or ad-hoc column() / literal_column() / text(), with 1 and 2 members, with and without per-dialect option
+    kwargs, emitted through CreateTable, AddConstraint and CreateIndex.  Returns [(label, thunk -> DDL element)]."""
+    import itertools
+
+    import sqlalchemy as sa
+    from sqlalchemy import schema as sch
+
+    member_kinds = ["col", "name", "adhoc", "adhoc_typed", "literal", "text"]
+
+    def member(kind, t_cols):
+        if kind == "col": return t_cols[0]
+        if kind == "name": return "id"
+        if kind == "adhoc": return sa.column("adhoc")
+        if kind == "adhoc_typed": return sa.column("id", sa.Integer)
+        if kind == "literal": return sa.literal_column("id")
+        return sa.text("id")
+
+    opts = {
+        "unique": [{}, {"sqlite_on_conflict": "IGNORE"}, {"postgresql_nulls_not_distinct": True}, {"mssql_clustered": True}, {"deferrable": True}, {"postgresql_include": ["k2"]}],
+        "pk": [{}, {"sqlite_on_conflict": "FAIL"}, {"mssql_clustered": False}, {"postgresql_include": ["k2"]}],
+        "index": [{}, {"unique": True}, {"mysql_length": 4}, {"postgresql_using": "btree"}, {"mssql_include": ["k2"]}, {"sqlite_where": sa.column("k2") > 1}, {"postgresql_where": sa.literal_column("k2") > 1},
+                  {"oracle_compress": 1}],
+        "check": [{}, {"sqlite_on_conflict": "ROLLBACK"}, {"postgresql_not_valid": True}],
+    }
+    out = []
+    combos = [(k,) for k in member_kinds] + [p for p in itertools.product(member_kinds, repeat=2) if p[0] != p[1]][:14]
+    for kind in ("unique", "pk", "index", "check"):
+        for combo in combos:
+            if kind in ("unique", "pk") and "text" in combo:
+                continue  # not accepted by the constructors
+            if kind == "pk" and any(m in ("adhoc", "adhoc_typed", "literal") for m in combo):
+                continue  # PrimaryKeyConstraint over ad-hoc columns is rejected when the Table is built
+            for oi, okw in enumerate(opts[kind]):
+                for emit in ("create_table", "add_or_create", "column_opts"):
+                    if emit == "column_opts" and oi != 0:
+                        continue
+
+                    def thunk(kind=kind, combo=combo, okw=okw, emit=emit):
+                        m = sa.MetaData()
+                        ckw = {}
+                        if emit == "column_opts":
+                            ckw = {"sqlite_on_conflict_unique": "REPLACE", "sqlite_on_conflict_primary_key": "IGNORE", "sqlite_on_conflict_not_null": "FAIL"}
+                        cols = [sa.Column("id", sa.Integer, nullable=False, **ckw), sa.Column("k2", sa.Integer)]
+                        mem = [member(k, cols) for k in combo]
+                        if kind == "unique":
+                            c = sa.UniqueConstraint(*mem, name=None if emit == "column_opts" else "uq_d", **okw)
+                        elif kind == "pk":
+                            c = sa.PrimaryKeyConstraint(*mem, name="pk_d", **okw)
+                        elif kind == "check":
+                            e = mem[0] if not isinstance(mem[0], str) else sa.column(mem[0])
+                            c = sa.CheckConstraint(e > 0 if hasattr(e, "__gt__") and not isinstance(e, sa.sql.elements.TextClause) else e, name="ck_d", **okw)
+                        else:
+                            c = None
+                        t = sa.Table("dt", m, *(cols + ([c] if c is not None else [])))
+                        if kind == "index":
+                            ix = sa.Index("ix_d", *[x if not isinstance(x, str) else t.c[x] for x in mem], **okw)
+                            if ix.table is None:
+                                t.append_constraint(ix)
+                            return sch.CreateIndex(ix) if emit != "create_table" else sch.CreateTable(t)
+                        if emit == "add_or_create":
+                            return sch.AddConstraint(c)
+                        return sch.CreateTable(t)
+
+                    out.append(("%s/%s/opt%d/%s" % (kind, "+".join(combo), oi, emit), thunk))
+    return out
+
+
+def compile_directed(idx, dialect_name):
+    """compile directed construct number idx on a plain dialect instance; (label, outcome, detail)"""
+    from sqlalchemy import exc
+
+    label, thunk = directed_constructs()[idx]
+    d = get_dialect(dialect_name)
+    with warnings.catch_warnings():
+        warnings.simplefilter("ignore")
+        try:
+            el = thunk()
+        except Exception as e:  # noqa: not accepted by the constructors
+            return label, "rejected-by-constructor", type(e).__name__
+        try:
+            str(el.compile(dialect=d))
+            return label, "ok", ""
+        except exc.SQLAlchemyError as e:
+            n = type(e).__name__
+            return label, ("documented:" + n) if n in DOCUMENTED else ("internal:" + n), str(e)[:300]
+        except Exception as e:  # noqa
+            return label, "internal:" + type(e).__name__, _where(e)
+
+
 def dialect_variant(name, rng):
     """dialect instance with an option variant; returns (dialect, description)"""
     d = get_dialect(name)
@@ -1009,6 +1100,14 @@ def run(ctx, deep=False):
         ctx.count("dispatch-rows", len(sample))
     if ctx.driver_ok():
         ctx.correspond("corr/c22:visitor-dispatch-vs-Model.Visit", cases, impl, ctx.driver(reqs))
+    # ---- directed block (seed independent): constraints / indexes over ad-hoc members on every dialect
+    for idx in range(len(directed_constructs())):
+        for dn in DIALECTS:
+            label, outcome, detail = compile_directed(idx, dn)
+            ctx.case(("directed", idx, dn), nontrivial=outcome != "rejected-by-constructor")
+            ctx.count("directed=" + outcome.split(":")[0])
+            if outcome.startswith("internal"):
+                ctx.violation(classify("ddl", dn, outcome, detail), {"directed": idx, "label": label, "dialect": dn}, "directed %s on %s: %s" % (label, dn, detail))
     # ---- compile fuzz
     risky = bool(_state.get("new_kw_sites"))
     if risky:
@@ -1036,6 +1135,10 @@ def search(ctx, broken):
 
 def replay(ctx, obj):
     c = obj["case"]
+    if "directed" in c:
+        label, outcome, detail = compile_directed(c["directed"], c["dialect"])
+        print("replay C22 directed %s on %s -> %s %s" % (label, c["dialect"], outcome, detail))
+        return outcome.startswith("internal")
     if "gen_seed" not in c:
         print("replay C22: dispatch case %r (re-run the check)" % (c,))
         return True
